@@ -128,8 +128,26 @@ def r07_3(rep, M, rid):
     kw = {k.arg: k.value for k in ctor[0].keywords}
     idxs = {norm(x.slice) for k in ("wyckoff_letter", "element", "atomic_number") if k in kw for x in ast.walk(kw[k]) if isinstance(x, ast.Subscript)}
     srcs = {k: {norm(x.value) for x in ast.walk(kw[k]) if isinstance(x, ast.Subscript)} for k in ("wyckoff_letter", "element", "atomic_number") if k in kw}
-    if len(idxs) == 1 and srcs.get("wyckoff_letter") == {"wyckoff_letters"} and srcs.get("element") == {"elements"} and srcs.get("atomic_number") == {"numbers"}:
-        rep.ok(rid, f"letter, element and atomic number of a set are read at the same atom index `{sorted(idxs)[0]}`")
+    # the index must be the *position of the orbit's first atom* (second output of np.unique(..., return_index=True)),
+    # not the orbit label (first output) and not the running number of the set
+    first_pos_var = None
+    for a2 in ast.walk(fn):
+        if isinstance(a2, ast.Assign) and isinstance(a2.targets[0], ast.Tuple) and len(a2.targets[0].elts) == 2 and isinstance(a2.value, ast.Call) \
+                and norm(a2.value.func).endswith("unique") and any(k.arg == "return_index" for k in a2.value.keywords):
+            second = norm(a2.targets[0].elts[1])
+            for lp in ast.walk(fn):
+                if isinstance(lp, ast.For) and isinstance(lp.iter, ast.Call) and isinstance(lp.iter.func, ast.Name) and lp.iter.func.id == "enumerate" \
+                        and norm(lp.iter.args[0]) == second and isinstance(lp.target, ast.Tuple):
+                    first_pos_var = norm(lp.target.elts[1])
+                elif isinstance(lp, ast.For) and norm(lp.iter) == second and isinstance(lp.target, ast.Name):
+                    first_pos_var = lp.target.id
+    right_index = first_pos_var is not None and idxs == {first_pos_var}
+    if len(idxs) == 1 and not right_index:
+        rep.violation(rid, "_get_wyckoff_sets: set attributes index", f"letter/element/number of a set are read at `{sorted(idxs)[0]}`, which is not the position of "
+                      f"the orbit's first atom (`{first_pos_var}` from np.unique(..., return_index=True)): orbit labels / running numbers are not positions in "
+                      "the conventional cell, so the reported letter and element depend on atom order", M.where(fq, ctor[0]))
+    elif len(idxs) == 1 and srcs.get("wyckoff_letter") == {"wyckoff_letters"} and srcs.get("element") == {"elements"} and srcs.get("atomic_number") == {"numbers"}:
+        rep.ok(rid, f"letter, element and atomic number of a set are read at the position of the orbit's first atom `{sorted(idxs)[0]}`")
     else:
         rep.violation(rid, "_get_wyckoff_sets: set attributes", f"letter/element/number are read at {sorted(idxs)} from {srcs}", M.where(fq, ctor[0]))
     # inputs: conventional system with conventional letters and conventional equivalence
